@@ -423,7 +423,8 @@ class FileResponse(Response, FileResponseMixin):
         sendfile = self.create_send_or_zerocopy(scope, send)
         file_descriptor = await open_for_sendfile(self.filepath)
         try:
-            await sendfile(file_descriptor)
+            # no more than the announced length, also if the file has grown since
+            await sendfile(file_descriptor, None, file_size)
         finally:
             await run_in_threadpool(os.close, file_descriptor)
 
